@@ -735,8 +735,51 @@ fn sweep_sustain_creep(ctx: &Ctx, rep: &mut Report, props: &[&'static str]) {
     });
 }
 
+/// many short notes in a row (more gate events and phase ends than a 16-bit counter holds), all oracles running
+fn sweep_many_notes(ctx: &Ctx, rep: &mut Report, props: &[&'static str]) {
+    let pv: Vec<&'static str> = props.to_vec();
+    let pr = &pv;
+    let notes: u64 = if ctx.tier.is_thorough() { 70_000 } else { 66_000 };
+    par_ranges(ctx, rep, 4, 4, |_, lo, hi, lc| {
+        for j in lo..hi {
+            let mut m = AdsrM::new(1000.0, vec![], vec![]);
+            let mut script: Vec<String> = Vec::new();
+            let pre = vec!["attack:0.002".to_string(), "decay:0.002".to_string(), "sustain:0.5".to_string(), "release:0.002".to_string()];
+            if !drive(&mut m, &mut script, &pre, pr, lc) {
+                continue;
+            }
+            let cycle: Vec<String> = match j {
+                0 => vec!["gate_on".into(), "tick*7".into(), "gate_off".into(), "tick*4".into()],
+                1 => vec!["gate_on".into(), "tick".into(), "gate_off".into(), "tick".into()],
+                2 => vec!["gate_on".into(), "tick*2".into(), "gate_on".into(), "tick*3".into(), "gate_off".into(), "gate_off".into(), "tick*2".into()],
+                _ => vec!["gate_on".into(), "tick*3".into(), "sustain:0.25".into(), "tick*3".into(), "sustain:0.5".into(), "gate_off".into(), "tick*5".into()],
+            };
+            let mut ok = true;
+            for n in 0..notes {
+                let mut scratch: Vec<String> = Vec::new();
+                let before = lc.viol_total;
+                if !drive(&mut m, &mut scratch, &cycle, pr, lc) || lc.viol_total != before {
+                    // make the replay exact: the cycle repeated n+1 times
+                    if let Some(v) = lc.viols.last_mut() {
+                        let mut ops = pre.clone();
+                        for _ in 0..=n.min(200_000) {
+                            ops.extend(cycle.iter().cloned());
+                        }
+                        v.ops = ops;
+                    }
+                    ok = false;
+                    break;
+                }
+            }
+            let _ = ok;
+            lc.count("notes_played_in_a_row", notes);
+        }
+    });
+}
+
 fn sweeps(ctx: &Ctx, rep: &mut Report, props: &[&'static str]) {
     sweep_sustain_creep(ctx, rep, props);
+    sweep_many_notes(ctx, rep, props);
     sweep_increments(ctx, rep, props);
     sweep_mid_phase_events(ctx, rep, props);
     if ctx.tier.is_thorough() {
@@ -918,6 +961,7 @@ pub fn c02(ctx: &Ctx) -> Report {
     }
     sweep_increments(ctx, &mut rep, &["C02"]);
     sweep_mid_phase_events(ctx, &mut rep, &["C02"]);
+    sweep_many_notes(ctx, &mut rep, &["C02"]);
     rep.nontrivial = rep.counters.get("phases_timed").copied().unwrap_or(0) + rep.counters.get("phase_ends_after_more_than_one_tick").copied().unwrap_or(0);
     rep.require_nonzero("phases_shorter_than_one_sample");
     rep.require_nonzero("configurations_with_a_time_set_twice");
